@@ -8,6 +8,7 @@ PID = "C10"
 LEVEL = "other"
 CRATES = ["rlib_geometry"]
 RELEASE = True
+NO_HIDDEN_STATE = ['rlib_geometry']   # driver rule STATE: these crates are plain data structures / functions
 ARMED = True
 ENGINES = ["E6", "E3"]
 TECHNIQUE = "backward data-dependence of every returned point (term slices down to the fields of the inputs) against the inputs geometry requires; linear-form classification of the floating-point comparisons of each path into threshold ladders; term shape of line normalisation"
